@@ -413,7 +413,7 @@ def check_function(R, func, subject, mode='return', emit=(),
                 if mode == 'return':
                     # yields
                     for n in au.walk_no_defs(s):
-                        if isinstance(n, ast.Yield) and n.value is not None:
+                        if isinstance(n, (ast.Yield, ast.YieldFrom)) and n.value is not None:
                             if flow.is_tainted(n.value):
                                 observed += 1
                                 ok = expr_sign_dependent(flow, n.value) or \
